@@ -78,7 +78,9 @@ def compare_structures(orig, back):
             r = compare_structures(fa, fb)
             if r:
                 return r
-        if cb != round6(ca):
+        # equal as numbers: the printed decimal may be an integer literal (e.g. 73212000000000000000000) that
+        # differs from the float 7.3212e22 only by the float's own representation error
+        if cb != round6(ca) and abs(cb - round6(ca)) > 1e-14 * abs(round6(ca)):
             return ("changed_count", "count %d" % i, cb, round6(ca))
     return None
 
